@@ -57,7 +57,8 @@ CONSTANTS
   AllocAt,              \* "hint" (the kernel never places a mapping over existing memory) | "fixed" (deviation: the
                         \* allocator insists on a remembered address, whatever lies there now)
   SavedFrom,            \* "install" | "first" (deviation: the bytes to restore come from a process-wide table filled
-                        \* when the function was first seen and never invalidated)
+                        \* when the function was first seen and never invalidated) | "ptr" (deviation: they come from a
+                        \* snapshot taken when the typed pointer was made, possibly in an earlier lifetime)
   TrampFlushed          \* FALSE = the macOS variant of the pinned tree: clear_cache() was empty there and only
                         \* patch_function() invalidated the instruction cache, so trampoline contents written through
                         \* inject_asm_code() got no platform flush.  Confirmed on the macOS build of common.rs run against OS
@@ -256,11 +257,19 @@ FlushTramp(t) ==
   /\ cur' = Mark(t, "ftramp")
   /\ UNCHANGED <<lock, poisoned, th, inj, dropst, code, orig, tramp, rw, ctr, aborted, fault, inflight>>
 
+\* what the guard will write back.  "install": the cells found at this moment.  "first": the function's first-seen cells.
+\* "ptr" (deviation): a snapshot taken when the typed pointer to the function was MADE -- which may have been during an
+\* earlier lifetime, while the function carried an earlier patch (any trampoline id) -- instead of at installation time
+SavedCands(t) ==
+  LET f == cur[t].f  n == cur[t].size IN
+  CASE SavedFrom = "install" -> {SubSeq(code[f], 1, n)}
+    [] SavedFrom = "first" -> {[i \in 1..n |-> OrigCell(f, i)]}
+    [] SavedFrom = "ptr" -> {SubSeq(code[f], 1, n)} \cup
+                            (IF th[t].lives >= 1 THEN {PatchCells(j, n) : j \in TrampIds} ELSE {})
 ReadOrig(t) ==
   /\ InInstall(t) /\ Done(t, "gate") /\ ~Done(t, "read") /\ ~Done(t, "wentry") /\ LinearOk(t, "read")
-  /\ cur' = [cur EXCEPT ![t].done = @ \cup {"read"},
-                         ![t].saved = IF SavedFrom = "install" THEN SubSeq(code[cur[t].f], 1, cur[t].size)
-                                      ELSE [i \in 1..cur[t].size |-> OrigCell(cur[t].f, i)]]
+  /\ \E snap \in SavedCands(t) :
+       cur' = [cur EXCEPT ![t].done = @ \cup {"read"}, ![t].saved = snap]
   /\ UNCHANGED <<lock, poisoned, th, inj, dropst, code, orig, tramp, rw, dirty, ctr, aborted, fault, inflight>>
 
 \* environment: an address the library has given back now belongs to somebody else (at most one at a time here)
